@@ -412,6 +412,10 @@ def scenarios(tier, seed):
         for h in (["H6", "H3"] if tier == "quick" else ["H1", "H2", "H3", "H4", "H6", "H8"]):
             out.append({"history": h, "bind": "tcp6", "class": rng.choice(["sync", "gthread", "gevent"]),
                         "delay0": rng.choice([0.3, 0.6]), "delay1": rng.choice([0.3, 0.8])})
+    # the bind written as a host name
+    for h in (["H6"] if tier == "quick" else ["H1", "H3", "H6", "H8"]):
+        out.append({"history": h, "bind": "tcpname", "class": rng.choice(["sync", "gthread", "gevent"]),
+                    "delay0": rng.choice([0.3, 0.6]), "delay1": rng.choice([0.3, 0.8])})
     for i, sc in enumerate(out):
         sc["seed"] = seed
         sc["idx"] = i
